@@ -24,5 +24,5 @@ suite=$(/verif/bin/baseline.sh "$wt" | head -1)
 patched_demo=$(run_demo)
 tail -5 "$wt/.demo.log" | cut -c1-200 > /tmp/vseed_last_$name.log
 ok=no
-if [ "$base_demo" = pass ] && [ "$patched_demo" = fail ] && echo "$suite" | grep -q "fail=0"; then ok=yes; fi
+if [ "$base_demo" = pass ] && [ "$patched_demo" = fail ] && echo "$suite" | grep -q "pass=163 fail=0"; then ok=yes; fi
 echo "RESULT $name confirmed=$ok suite_with_patch=[$suite] demo_without_patch=$base_demo demo_with_patch=$patched_demo"
